@@ -36,6 +36,14 @@ def race_reports(logdir):
     return lib, other
 
 
+def race_fn(blk):
+    """the first library function named in a race report"""
+    fn = re.search(r"(github\.com/free5gc/nas\S*)", blk)
+    if not fn: return "library"
+    name = fn.group(1)
+    return name[:-2] if name.endswith("()") else name
+
+
 def family_codec(c, thorough):
     rng = c.rng
     gen = mc_codec(c, 1, shards=3, liveness=False)
@@ -59,8 +67,7 @@ def family_codec(c, thorough):
         if other:
             raise Infra("race reported in harness code only (%d reports) - harness bug" % other)
         for blk in lib[:3]:
-            fn = re.search(r"(github.com/free5gc/nas[^\s(]*)", blk)
-            c.report("race", fn.group(1) if fn else "library", "data race reported by the race detector with %d goroutines, GOMAXPROCS=%d" % (n, procs),
+            c.report("race", race_fn(blk), "data race reported by the race detector with %d goroutines, GOMAXPROCS=%d" % (n, procs),
                      dict(config=dict(goroutines=n, gomaxprocs=procs, rounds=rounds, family="codec"), report=blk))
         files = sorted(f for f in os.listdir(logdir) if f.startswith("g.") and f.endswith(".ndjson"))
         if len(files) != n: raise Infra("expected %d goroutine traces, found %d" % (n, len(files)))
@@ -190,8 +197,7 @@ def family_others(c, thorough, fams, pools, drv):
         traces, lib, man = run_conc(c, drv, fams, plans, n, procs, rounds, tag)
         cfg = dict(goroutines=n, gomaxprocs=procs, rounds=rounds, schedule=mode_of(n, rounds))
         for blk in lib:
-            fn = re.search(r"(github.com/free5gc/nas[^\s(]*)", blk)
-            key = fn.group(1) if fn else "library"
+            key = race_fn(blk)
             races.setdefault(key, (cfg, blk))
         for f in fams:
             cases = [x for _, cs in plans[f.name] for x in cs]
